@@ -420,6 +420,15 @@ class World:
         active = self.server.active_mailboxes.get(mbox_name)
         if active is not None:
             cur = max(cur, int(active.mtime))
+        else:
+            # not active (after a restart, or expired): the time the server compares with is the one it stored.  Earlier
+            # bumps have pushed that into the future of the real clock, which a real folder never sees: keep going forward
+            try:
+                row = self.run(self.server.db.fetchone("select mtime from mailboxes where name=?", (mbox_name,)))
+                if row and row[0] is not None:
+                    cur = max(cur, int(row[0]))
+            except Exception:
+                pass
         os.utime(p, (cur + 2, cur + 2))
 
     def mh_sequences(self, mbox_name: str) -> dict[str, list[int]]:
